@@ -27,6 +27,13 @@
 #include <utility>
 #include <vector>
 
+#ifdef PGM_INDEX_VERIF
+// Verification hook (no-op unless the including translation unit defines it before this header).
+#ifndef PGM_INDEX_VERIF_ROUTE
+#define PGM_INDEX_VERIF_ROUTE(level, pos, lo_index, chosen_index, level_size) ((void) 0)
+#endif
+#endif
+
 namespace pgm {
 
 #define PGM_SUB_EPS(x, epsilon) ((x) <= (epsilon) ? 0 : ((x) - (epsilon)))
@@ -141,6 +148,9 @@ protected:
             auto level_begin = segments.begin() + levels_offsets[l];
             auto pos = std::min<size_t>((*it)(key), std::next(it)->intercept);
             auto lo = level_begin + PGM_SUB_EPS(pos, EpsilonRecursive + 1);
+#ifdef PGM_INDEX_VERIF
+            auto verif_lo = lo;
+#endif
 
             static constexpr size_t linear_search_threshold = 8 * 64 / sizeof(Segment);
             if constexpr (EpsilonRecursive <= linear_search_threshold) {
@@ -152,6 +162,10 @@ protected:
                 auto hi = level_begin + PGM_ADD_EPS(pos, EpsilonRecursive, level_size);
                 it = std::prev(std::upper_bound(lo, hi, key));
             }
+#ifdef PGM_INDEX_VERIF
+            PGM_INDEX_VERIF_ROUTE(l, pos, size_t(verif_lo - level_begin), size_t(it - level_begin),
+                                  size_t(levels_offsets[l + 1] - levels_offsets[l]));
+#endif
         }
         return it;
     }
